@@ -29,7 +29,7 @@ def main():
     from mirsym import check_kani, check_trees, common
     import time
     t0 = time.time()
-    rdir = os.path.join(common.VERIF, 'evidence', 'replay')
+    rdir = os.path.join(common.evidence_dir(), 'replay')
     if os.path.isdir(rdir):
         for f in os.listdir(rdir):
             if f.startswith(a.pid + '-'):
